@@ -163,8 +163,17 @@ func c18Transport(r *rng, id string, alist []string, oracle func(net.IP) bool) b
 	for i := 0; i < 100000 && !has("zz"); i++ {
 		time.Sleep(100 * time.Microsecond)
 	}
-	if !has("zz") && pan == 0 {
-		return false // the sentinel never came through (an overloaded machine): no verdict from this carrier
+	// the handoff queue hands out the newest message first: wait until it is empty, then push a second
+	// sentinel through the (single) handler goroutine, behind whatever it was still working on
+	for i := 0; i < 100000 && ml.VerifHandoffLen(m) > 0; i++ {
+		time.Sleep(100 * time.Microsecond)
+	}
+	feed(ml.VerifEncodeAlive(1, "zy", pool.addrs[1], 7946, nil, vsn), fromAddr)
+	for i := 0; i < 100000 && !has("zy"); i++ {
+		time.Sleep(100 * time.Microsecond)
+	}
+	if !(has("zz") && has("zy")) && pan == 0 {
+		return false // a sentinel never came through (an overloaded machine): no verdict from this carrier
 	}
 	listed := 0
 	for _, n := range m.Members() {
